@@ -827,6 +827,12 @@ func child(batch int, seed int64, tier, outDir string) {
 						}
 					}
 					config.LoadExecSaveSigningKeys(func(k *config.SigningKeys) error { k.Remove("k1", "k2", "k3"); return nil })
+					for _, order := range [][]string{{"k1", "k2"}, {"k2", "k1", "k3"}, {"k3", "k2", "k1"}, {"k2", "k2"}, {"k1", "", "k2"}} {
+						def := []string{"k1", "k2", "k3"}[rng.Intn(3)]
+						mem := &config.SigningKeys{Default: &def, Keys: []config.KeySuite{{Name: "k1"}, {Name: "k2"}, {Name: "k3"}}}
+						mem.Remove(order...)
+						mem.GetDefault()
+					}
 				default:
 					if c, err := config.LoadConfig(); err == nil && c != nil {
 						c.Save()
